@@ -66,6 +66,15 @@ def gen_hostile(rng):
             p['desc_pad'] = 'text'
         p['data_after'] = rng.choice((0, 70000, MI, 2 * MI))
         p['fill'] = rng.choice(('zero', 'text', 'inc'))
+        # every other offset / size field of the sparse header, too
+        if rng.random() < 0.5:
+            hv = (0, 1, 2, 3, 1 << 31, 1 << 32, (1 << 55) + 1, 1 << 63,
+                  (1 << 64) - 2)
+            for fld in ('gd_offset', 'rgd_offset', 'grain', 'sectors'):
+                if rng.random() < 0.5:
+                    p[fld] = rng.choice(hv)
+            if p.get('footer'):
+                p.pop('gd_offset', None)
         return kind, {'layout': 'vmdk', 'p': p}
     if kind == 'vhdx':
         p = G.gen_vhdx(rng)
@@ -180,7 +189,8 @@ class C05(Check):
         p = case['content'].get('p') or {}
         hostile = [p.get(k) for k in ('desc_num', 'r_count', 'm_count',
                                       'item_length', 'meta_len', 'footer',
-                                      'item_offset', 'unit', 'period')]
+                                      'item_offset', 'unit', 'period',
+                                      'gd_offset', 'rgd_offset', 'grain')]
         for j, s in enumerate(case['scheds']):
             sizes = streams.expand(s['rle'])
             bump(stats['families'], s['fam'].split('(')[0])
